@@ -569,6 +569,16 @@ func TestC09(t *testing.T) {
 		for range tier(60, 2000) {
 			scripts = append(scripts, genBackoffScript(r, 3+r.intn(12)))
 		}
+
+		// continuous failure for much longer than any deadline a backoff library might apply by default (15 minutes of
+		// failures need about 25 of them): the interval must stay inside the capped window for ever
+		long := make([]string, 0, 46)
+		for i := range 44 {
+			long = append(long, pick(r, []string{"err", "err", "err", "panic"}))
+			_ = i
+		}
+
+		scripts = append(scripts, append(append([]string(nil), long...), "ok", "err"), append(append([]string{"ok", "err"}, long[:40]...), "skip", "err"))
 	}
 
 	qf := newCoqFile("C09_queue_cases", []string{"Queue", "QueueCheck"}, "list qobs", "q_mismatches")
@@ -630,6 +640,17 @@ func TestC09(t *testing.T) {
 
 		if len(gaps) != len(s) {
 			rep.violate(i, fmt.Sprintf("backoff script: observed %d of %d invocations", len(gaps), len(s)), map[string]any{"kind": "backoff", "script": s})
+		}
+
+		// Go-side monitor: a plain failure is never retried sooner than the smallest interval of the schedule
+		// (initial 500ms, randomisation 0.5 => 250ms), however long the item has been failing
+		for j := 0; j < len(gaps) && j < len(s); j++ {
+			if (s[j] == "err" || s[j] == "panic") && gaps[j] >= 0 && gaps[j] < int64(250*time.Millisecond) {
+				rep.violateKey(i, "backoff-not-honoured", fmt.Sprintf("backoff-not-honoured: failure #%d of the item was retried after %v, sooner than any interval of the error backoff", j+1, time.Duration(gaps[j])),
+					map[string]any{"kind": "backoff", "script": s})
+
+				break
+			}
 		}
 	}
 
